@@ -69,6 +69,139 @@ func (e *Eng) runDeferred(st *State, d deferEntry) *State {
 	return e.merge(outs)
 }
 
+// execClosure runs the body of a function literal on st (owned by the caller) as if called with args.
+// It returns the merged normal-exit state (nil if none) and the result values. The closure's own deferred calls
+// are run on each of its exits (normal and panicking); panics that leave the closure are appended to e.exits.
+func (e *Eng) execClosure(st *State, fl *ast.FuncLit, args []*Val) (*State, []*Val) {
+	if e.inlining == nil {
+		e.inlining = map[*ast.FuncLit]bool{}
+	}
+	if e.inlining[fl] {
+		e.gap("recursive closure call abstracted")
+		e.havocHeap(st)
+		return st, nil
+	}
+	e.inlining[fl] = true
+	defer delete(e.inlining, fl)
+	base := len(st.defers)
+	i := 0
+	for _, f := range fl.Type.Params.List {
+		for _, n := range f.Names {
+			if i < len(args) {
+				st.vars[e.info.Defs[n]] = e.coerce(args[i], e.info.Defs[n].Type())
+			}
+			i++
+		}
+	}
+	var results []types.Object
+	if fl.Type.Results != nil {
+		k := 0
+		for _, f := range fl.Type.Results.List {
+			if len(f.Names) == 0 {
+				results = append(results, types.NewVar(token.NoPos, nil, fmt.Sprintf("cres%d", k), e.info.TypeOf(f.Type)))
+				k++
+				continue
+			}
+			for _, n := range f.Names {
+				obj := e.info.Defs[n].(*types.Var)
+				st.vars[obj] = e.zeroVal(obj.Type())
+				results = append(results, obj)
+				k++
+			}
+		}
+	}
+	savedExits, savedRes := e.exits, e.results
+	e.exits, e.results = nil, results
+	end := e.execBlock(st, fl.Body.List)
+	inner := e.exits
+	if end != nil {
+		var vals []*Val
+		for _, r := range results {
+			vals = append(vals, end.vars[r])
+		}
+		inner = append(inner, Exit{Kind: ExitReturn, St: end, Vals: vals, Pos: fl.Body.Rbrace})
+	}
+	e.exits = nil
+	var normal []*State
+	var normalVals [][]*Val
+	var escaping []Exit
+	for idx := range inner {
+		x := inner[idx]
+		if x.St == nil {
+			continue
+		}
+		if x.Kind != ExitReturn && x.Kind != ExitPanic {
+			escaping = append(escaping, x) // break/continue cannot cross a function boundary; keep for diagnosis
+			continue
+		}
+		if x.Kind == ExitReturn {
+			for ri, r := range results {
+				if ri < len(x.Vals) && x.Vals[ri] != nil {
+					x.St.vars[r] = x.Vals[ri]
+				}
+			}
+		}
+		for d := len(x.St.defers) - 1; d >= base && x.St != nil; d-- {
+			x.St = e.runDeferred(x.St, x.St.defers[d])
+		}
+		if x.St == nil {
+			continue
+		}
+		if len(x.St.defers) > base {
+			x.St.defers = x.St.defers[:base]
+		}
+		if x.Kind == ExitPanic && x.St.panicking {
+			escaping = append(escaping, x)
+			continue
+		}
+		var vals []*Val
+		for _, r := range results {
+			v := x.St.vars[r]
+			if v == nil {
+				v = e.zeroVal(r.Type())
+			}
+			vals = append(vals, v)
+		}
+		normal = append(normal, x.St)
+		normalVals = append(normalVals, vals)
+	}
+	// panics raised inside the closure's deferred functions
+	escaping = append(escaping, e.exits...)
+	e.exits = append(savedExits, escaping...)
+	e.results = savedRes
+	if len(normal) == 0 {
+		return nil, nil
+	}
+	if len(normal) == 1 {
+		return normal[0], normalVals[0]
+	}
+	var paths []string
+	for _, s := range normal {
+		paths = append(paths, s.path)
+	}
+	var outVals []*Val
+	for ri := range results {
+		var col []*Val
+		for _, vs := range normalVals {
+			col = append(col, vs[ri])
+		}
+		outVals = append(outVals, e.mergeVals(paths, col))
+	}
+	return e.merge(normal), outVals
+}
+
+// assignedIn lists the variables declared outside fl that fl assigns (they become unknown to the spawner).
+func (e *Eng) assignedIn(fl *ast.FuncLit) map[types.Object]bool {
+	vars, _ := e.assignedVars(e.info, fl.Body)
+	out := map[types.Object]bool{}
+	for o := range vars {
+		if o != nil && (o.Pos() < fl.Pos() || o.Pos() >= fl.End()) {
+			out[o] = true
+		}
+	}
+	return out
+}
+
 func (e *Eng) includeTheories(names []string) {
 	for _, n := range names {
 		if e.theoriesIn[n] {
@@ -193,6 +326,7 @@ func (e *Eng) verifyFunc(fobj *types.Func) {
 		e.decls = append(e.decls, fmt.Sprintf("(assert %s)", g.T))
 	}
 	e.declsAtEntry = append([]string{}, e.decls...)
+	e.oldState = st.clone()
 	end := e.execBlock(st, e.fnBody().List)
 	if end != nil {
 		var vals []*Val
